@@ -479,6 +479,14 @@ func runC09(c *Ctx) {
 			if sc := call.Call.StaticCallee(); sc != nil && sc == getFn {
 				getCall = call
 			}
+			// the reader reached through the function that takes the lock around it
+			if sc := call.Call.StaticCallee(); sc != nil && sc != getFn && getCall.Instr == nil && getFn != nil && sc.Pkg == getFn.Pkg {
+				for _, inner := range callsIn(sc) {
+					if inner.Call.StaticCallee() == getFn {
+						getCall = call
+					}
+				}
+			}
 		}
 		if getCall.Instr == nil {
 			c.Fail("READER", "GetModuleDatasForModuleKeys/get-call", fr.Decl.Pos(), "does not call the marker-checking reader")
@@ -568,10 +576,39 @@ func c09Locks(c *Ctx, pk *packages.Package, putFn, getFn *ssa.Function) {
 		}
 		return false
 	}
-	for _, sf := range []*ssa.Function{putFn, getFn} {
-		if sf == nil {
+	lockFns := []*ssa.Function{putFn, getFn}
+	// the part of the reader that runs under the lock may be a function of its own (the lock is taken by its caller):
+	// a function that reads the marker, takes no lock itself and is only called inside the package is judged at its
+	// call sites, where the call counts as the marker read
+	skipDirect := map[*ssa.Function]bool{}
+	if getFn != nil {
+		if fd, _ := getFn.Syntax().(*ast.FuncDecl); fd != nil && !fd.Name.IsExported() {
+			hasLock := false
+			ast.Inspect(fd.Body, func(n ast.Node) bool {
+				if call, ok := n.(*ast.CallExpr); ok && isLockCall(call, "RLock", "Lock") {
+					hasLock = true
+				}
+				return true
+			})
+			if !hasLock {
+				for _, cs := range p.callersIndex()[getFn] {
+					if caller := cs.Instr.Parent(); caller != nil && caller != getFn && caller.Pkg == getFn.Pkg {
+						for caller.Parent() != nil {
+							caller = caller.Parent()
+						}
+						lockFns = append(lockFns, caller)
+						skipDirect[getFn] = true
+					}
+				}
+			}
+		}
+	}
+	seenLockFn := map[*ssa.Function]bool{}
+	for _, sf := range lockFns {
+		if sf == nil || skipDirect[sf] || seenLockFn[sf] {
 			continue
 		}
+		seenLockFn[sf] = true
 		fd, _ := sf.Syntax().(*ast.FuncDecl)
 		if fd == nil {
 			continue
